@@ -72,7 +72,8 @@ def _ns(tier):
 
 def _atom_inners(name):
     kind, dom = At.ATOMS[name]
-    inn = ['x', 'pos'] if dom == '+' else ['x', 'lin']
+    # 'lin': mixed signs, extremal magnitude positive; 'neg': mixed signs, extremal magnitude NEGATIVE (max|v| != |max v|)
+    inn = ['x', 'pos'] if dom == '+' else ['x', 'lin', 'neg']
     if kind == 'vec':
         inn.append('rev')
     return inn
@@ -584,9 +585,11 @@ def _rs_atom(name, arg, rso, svar):
     raise KeyError(name)
 
 
-def _inner(kind, x):
+def _inner(kind, x, c=0.0):
     if kind == 'x':
         return x
+    if kind == 'neg':
+        return c - x          # c = smallest pinned entry + 1/8: one small positive entry, all others negative and larger
     if kind == 'lin':
         return 2 * x - 1.25
     if kind == 'pos':
@@ -616,9 +619,10 @@ def _run_cvx(case):
     fek = {'ro': 'ro', 'dro1': 'dro', 'dro3': 'dro-eventwise(%s)' % mode}[base]
     tag = 'cvx|%s|%s|%s' % (fek, atom, chain)
     x, a, s = env.vars['x'], env.vars['a'], env.vars['s']
+    cneg = float(min(np.min(v) for v in env.val['x'])) + 0.125
 
     def build():
-        f = _rs_atom(atom, _inner(inner, x), rso, s)
+        f = _rs_atom(atom, _inner(inner, x, cneg), rso, s)
         return At.apply_chain(chain, k, f, s if chain == 'k*f+s' else a)
     e = None
     if when == 'pre':
@@ -647,7 +651,7 @@ def _run_cvx(case):
         return {'status': 'vacuous', 'outcome': 'cvx:%s call returned %s' % (atom, type(v).__name__), 'ops': env.ops.n}
     exps, KO = [], []
     for p in range(env.n):
-        xv = _inner(inner, env.raw('x', p))
+        xv = _inner(inner, env.raw('x', p), cneg)
         sv = float(env.raw('s', p))
         F = At.atom_value(atom, xv, scale=sv)
         av = sv if chain == 'k*f+s' else env.raw('a', p)
